@@ -245,7 +245,7 @@ def r2_locks(ctx, res, Tl):
     for f in prog.unit_funcs(TP):
         at, out = FX.must_locksets(f)
         # pairing by path enumeration
-        ev = APE.run(prog, cg, f, bound=1)
+        ev = APE.run(prog, cg, f, bound=APE.BOUND)
         badp = None
         for p in ev.paths:
             held = []
@@ -530,7 +530,7 @@ def r4_r8(ctx, res):
             held = atg.get(n["id"], frozenset())
             res.check((("threadpool", "m"), canon(lhs["kids"][0])) in held, "C13.R5", site(g, "count-under-lock"),
                       "threadpool.count changes under the pool mutex", "threadpool.count is changed without the pool mutex", g.loc(n))
-    ev = APE.run(prog, cg, tn, bound=1)
+    ev = APE.run(prog, cg, tn, bound=APE.BOUND)
     seen_inc = False
     for p in ev.paths:
         if p.end != "exit":
@@ -556,7 +556,7 @@ def r4_r8(ctx, res):
     # R6 delivery
     res.floor("C13.R6", 4)
     rn = prog.need("resultq_next", TP)
-    ev = APE.run(prog, cg, rn, bound=1)
+    ev = APE.run(prog, cg, rn, bound=APE.BOUND)
     for p in ev.paths:
         if p.end != "exit":
             continue
@@ -587,7 +587,7 @@ def r4_r8(ctx, res):
                       "(finished %s, nthreads %s, head %s)" % ([sorted(v) for v in fin], [sorted(v) for v in nth], [sorted(v) for v in hd]),
                       rn.loc(rn.body), p.describe(rn))
     rw = prog.need("result_worker", TP)
-    ev = APE.run(prog, cg, rw, bound=1)
+    ev = APE.run(prog, cg, rw, bound=APE.BOUND)
     for p in ev.paths:
         evs = [e for e in p.events if e.kind == "call"]
         for i, e in enumerate(evs):
@@ -609,7 +609,7 @@ def r4_r8(ctx, res):
             elif c == frozenset((EQ,)):
                 res.check(not cbs, "C13.R6", site(rw, "no-callback-at-end"), "no callback after the queue ended", "callback after the end", rw.loc(e.node))
     td = prog.need("threadpool_dispatch", TP)
-    ev = APE.run(prog, cg, td, bound=1)
+    ev = APE.run(prog, cg, td, bound=APE.BOUND)
     for p in ev.paths:
         if p.end != "exit":
             continue
@@ -620,7 +620,7 @@ def r4_r8(ctx, res):
     # R7 worker exit
     res.floor("C13.R7", 2)
     tw = prog.need("thread_worker", TP)
-    ev = APE.run(prog, cg, tw, bound=1)
+    ev = APE.run(prog, cg, tw, bound=APE.BOUND)
     exits = 0
     for p in ev.paths:
         if p.end != "exit":
@@ -652,7 +652,7 @@ def r4_r8(ctx, res):
         removes = [n for n, lhs in field_stores(g, "resultq", "head")]
         if not appends and not removes:
             continue
-        ev = APE.run(prog, cg, g, bound=1)
+        ev = APE.run(prog, cg, g, bound=APE.BOUND)
         atg, _ = FX.must_locksets(g)
         for n in appends:
             node_v = canon(n["kids"][1])
